@@ -89,6 +89,13 @@ impl WorkspaceIndex {
 
     /// Re-analyze a file by reading it from disk.
     pub fn update_from_disk(&mut self, path: &Path) {
+        // A file that indexing leaves out (a test file) is only known here
+        // while the editor has it open. Reading it back from disk would make
+        // what its importers are told depend on whether it was ever opened.
+        if !is_ucg_source(path) {
+            self.files.remove(path);
+            return;
+        }
         match std::fs::read_to_string(path) {
             Ok(content) => self.update_from_content(path, &content),
             // There is no such file (any more): what the index knows about it
